@@ -960,7 +960,7 @@ def run_c03(ctx):
     # every kind of token, in both orders, bare and inside a list
     others = ["7", "-2.5", "TRUE", "INTEGER.DUP", "foo", "INT[1,2]", "(", ")", "NAME.QUOTE", "CODE.QUOTE"]
     cs = []
-    for k, name in enumerate(ctx.registry + CUSTOM_INSTRS):
+    for k, name in enumerate(ctx.registry + ctx.extra + CUSTOM_INSTRS):
         for j, o in enumerate(others):
             pre = dict(base); pre["exec"] = []
             text = ["%s %s", "%s %s 3", "( %s %s )", "( 1 %s %s ( b ) )"][(k + j) % 4]
@@ -1023,7 +1023,7 @@ def run_c11(ctx):
     atoms = [{"k": "int", "v": 7}, {"k": "float", "v": gen.f2b(-2.5)}, {"k": "bool", "v": True}, {"k": "ins", "v": "INTEGER.DUP"},
              {"k": "id", "v": "foo"}, {"k": "ivec", "v": [1, 2]}, {"k": "list", "v": []}, {"k": "ins", "v": "NAME.QUOTE"}]
     cs = []
-    for k, name in enumerate(ctx.registry + CUSTOM_INSTRS):
+    for k, name in enumerate(ctx.registry + ctx.extra + CUSTOM_INSTRS):
         for j, a in enumerate(atoms):
             s = gen.empty_state()
             kids = [{"k": "ins", "v": name}, a] if (k + j) % 2 else [a, {"k": "ins", "v": name}]
@@ -1508,6 +1508,11 @@ def run_c01(ctx):
         mc_stage(ctx, tag, instrs, pools)
     run_events(ctx, "rand_programs", random_program_cases(ctx, 150 if q else 10000, ctx.seed))
     run_events(ctx, "rand_instr", random_instr_cases(ctx, ctx.registry, 6 if q else 300, ctx.seed + 2))
+    if ctx.extra:
+        # instructions the build registers beyond the specification's: "any program over all registered instructions"
+        # includes them; what their steps do is not judged, a crash is
+        run_events(ctx, "unspecified_instr", random_instr_cases(ctx, ctx.extra, 40 if q else 1000, ctx.seed + 6, prefix="xi") +
+                   random_program_cases(ctx, 60 if q else 3000, ctx.seed + 7, registry=ctx.registry + ctx.extra * 8, prefix="xprog"))
     # family-specific sequences (multi-step histories the uniform generator rarely produces)
     seqs = io_sequence_cases(ctx, 60 if q else 3000) + graph_sequence_cases(ctx, 30 if q else 2000) + \
         loop_program_cases(ctx, 20 if q else 1000) + list_roundtrip_cases(ctx, 40 if q else 2000) + vector_sequence_cases(ctx, 30 if q else 1500)
